@@ -13,6 +13,7 @@ import (
 	"google.golang.org/protobuf/proto"
 
 	"verif/internal/core"
+	"verif/internal/gen"
 )
 
 // C14: DSL output is canonical and source-info comments are inert.
@@ -42,6 +43,13 @@ func c14Model(r *rand.Rand) *openfgav1.AuthorizationModel {
 				us = c02Userset(r, 1)
 			}
 			td.Relations[rn] = us
+			if usCountThis(us) == 0 && r.Intn(2) == 0 {
+				// no direct assignment: the relation needs no metadata entry (API-style JSON often has none)
+				if td.GetMetadata().GetRelations() != nil {
+					delete(td.Metadata.Relations, rn)
+				}
+				continue
+			}
 			if td.GetMetadata().GetRelations()[rn] == nil {
 				if td.Metadata == nil {
 					td.Metadata = &openfgav1.Metadata{}
@@ -58,6 +66,17 @@ func c14Model(r *rand.Rand) *openfgav1.AuthorizationModel {
 	}
 	for _, cd := range m.GetConditions() {
 		cd.Expression = exprPool[r.Intn(len(exprPool))]
+	}
+	if r.Intn(4) == 0 {
+		// a type with several relations made of computed usersets only and no relation metadata at all
+		td := &openfgav1.TypeDefinition{Type: "nometa", Relations: map[string]*openfgav1.Userset{}}
+		for k := 2 + r.Intn(4); k > 0; k-- {
+			td.Relations[c02Names[r.Intn(len(c02Names))]] = gen.Computed(c02Names[r.Intn(len(c02Names))])
+		}
+		if r.Intn(2) == 0 {
+			td.Metadata = &openfgav1.Metadata{}
+		}
+		m.TypeDefinitions = append(m.TypeDefinitions, td)
 	}
 	if r.Intn(2) == 0 {
 		// attribution with hostile names
